@@ -379,6 +379,7 @@ class RProg:
         self.head, self.steps, self.decls, self.base = head, steps, decls or [], base
         self.fresh = fresh or {}
         self.trace = []     # labels of the rewrites applied so far
+        self.last_func = None
 
     def prql(self):
         lines = [d.prql() for d in self.decls]
@@ -600,12 +601,37 @@ def sites_identity(rp, rng, kinds=("derive-empty", "filter-true", "select-all", 
 
 # ------------------------------------------------------------------------------ (b) user functions
 
+def coq_func_call(f, call, node):
+    """Coq text of `(beta F C, Some NODE)` over PV.Model.Subst, or None when a part is not a plain expression"""
+    unparam = lambda e: map_expr(e, lambda n: ("col", None, n[1]) if n[0] == "param" else n)
+    piped = None
+    if call[0] == "pipe":
+        piped, call = call[1], call[2]
+    parts = [f.body, node] + [d for _, d in f.params if d is not None] + [a for _, a in call[2]] + list(call[3]) + ([piped] if piped is not None else [])
+    if f.body is None or not all(is_plain(unparam(x)) for x in parts):
+        return None
+    ps = "; ".join("(%d%%N, %s)" % (P.nid(n), "None" if d is None else "Some %s" % P.coq_expr(d)) for n, d in f.params)
+    fn = "{| f_params := [%s]; f_body := %s |}" % (ps, P.coq_expr(unparam(f.body)))
+    c = "{| c_named := [%s]; c_pos := [%s] |}" % ("; ".join("(%d%%N, %s)" % (P.nid(n), P.coq_expr(a)) for n, a in call[2]),
+                                                    "; ".join(P.coq_expr(a) for a in call[3]))
+    if piped is not None:
+        c = "(pipe %s %s)" % (P.coq_expr(piped), c)
+    return "(beta %s %s, Some %s)" % (fn, c, P.coq_expr(node))
+
+
 FUNC_VARIANTS = ["pos", "named-omit", "named-pass", "piped", "piped-named", "module", "module2"]
 
 
 def _choose_params(node, rng, kmax=3):
     """disjoint proper subterms of `node` to abstract (for a leaf: the node itself)"""
-    subs = [(p, n) for p, n in subterms(node) if p and n[0] not in ("param",)]
+    def null_operand(p, n):
+        # `x == null` / `x != null` are PRQL's IS NULL tests only while the null is LITERALLY there: a parameter bound to
+        # null would compare by value (unknown).  The literal stays in the body.
+        if n != ("lit", None) or not p:
+            return False
+        parent = node_at(node, p[:-1])
+        return parent[0] == "bin" and parent[1] in ("Eq", "Ne")
+    subs = [(p, n) for p, n in subterms(node) if p and n[0] not in ("param",) and not null_operand(p, n)]
     if not subs:
         return [()]
     rng.shuffle(subs)
@@ -716,6 +742,7 @@ def sites_func(rp, rng, variants=FUNC_VARIANTS, per_slot=None):
                 if node[0] in ("call", "pipe", "param"):
                     continue
                 f, call = _abstract(q, node, rng, v)
+                q.last_func = (f, call, node)       # for the tie with Model/Subst.v (beta f call must be `node`)
                 pre = _place(q, f, v)
                 call = _prefix_call(call, pre)
                 qs.set_slot(sid, replace_at(e, path, call))
@@ -816,28 +843,41 @@ def _rename_refs(q, old, new):
     walk(q.decls)
 
 
-def sites_module(rp, rng, depth2=True):
-    """move one top-level let-table / function into `module m { .. }` (or two nested modules); all references become paths"""
+def _decoy(dd):
+    """a DIFFERENT declaration of the same name and shape (left at top level when the real one moves into a module)"""
+    if isinstance(dd, LetTable):
+        return LetTable(dd.name, dd.head, copy.deepcopy(dd.steps) + [RStep("filter", raw="filter false")], "let")
+    if dd.tbody is not None:
+        return Func(dd.name, list(dd.params), tbody=copy.deepcopy(dd.tbody) + [RStep("filter", raw="filter false")], relparam=dd.relparam)
+    return Func(dd.name, list(dd.params), body=("lit", None))
+
+
+def sites_module(rp, rng, depth2=True, decoy=True):
+    """move one top-level let-table / function into `module m { .. }` (or two nested modules); all references become paths.
+    decoy variant: a different, unused declaration of the same name stays at top level -- `m.name` must not find it"""
     out = []
     for di, d in enumerate(rp.decls):
         if isinstance(d, Module):
             continue
-        for depth in ((1, 2) if depth2 else (1,)):
+        for depth in ((1, 2, 3) if (depth2 and decoy) else (1, 2) if depth2 else (1, 3) if decoy else (1,)):
             q = rp.clone()
             dd = q.decls[di]
+            if depth == 3 and isinstance(dd, Func) and dd.tbody is not None and dd.relparam is None:
+                continue
             if isinstance(dd, LetTable):
                 dd.style = "let"
             m = q.new("m")
-            if depth == 1:
+            if depth in (1, 3):
                 q.decls[di] = Module(m, [dd])
                 path = m + "." + dd.name
             else:
                 m2 = q.new("m")
                 q.decls[di] = Module(m, [Module(m2, [dd])])
                 path = m + "." + m2 + "." + dd.name
-            # an `into` declaration that follows must stay a statement of its own: fine, modules are statements too
             _rename_refs(q, dd.name, path)
-            lab = "module%s@%s" % ("" if depth == 1 else "2", dd.name)
+            if depth == 3:
+                q.decls.insert(di + 1, _decoy(dd))
+            lab = "module%s@%s" % ({1: "", 2: "2", 3: "-decoy"}[depth], dd.name)
             q.trace = rp.trace + [lab]
             out.append((lab, q))
     return out
